@@ -5473,15 +5473,9 @@ class FlowIRConcrete(object):
             label='status-report', is_primitive=is_primitive
         )
 
-        default_virtual_environments = (
-            self.get_virtual_environments(FlowIR.LabelDefault) if platform != FlowIR.LabelDefault else []
-        )
-        platform_virtual_environments = self.get_virtual_environments(platform)
-
-        virtual_environments = default_virtual_environments
-        for venv in platform_virtual_environments:
-            if venv not in virtual_environments:
-                virtual_environments.append(venv)
+        # VV: get_virtual_environments() already layers the virtual environments of the platform over those of the
+        #     default platform (a platform entry shadows the default entry with the same folder id and comes first)
+        virtual_environments = list(self.get_virtual_environments(platform))
 
         virtual_environments = FlowIR.fill_in(
             virtual_environments, context=global_variables, flowir=self._flowir,
